@@ -70,6 +70,10 @@ def valid_requests(tree, rng, extra_origin=True):
     mb = multipart_body([("name", "carol"), ("note", "hello world")])
     reqs.append(Req("POST", "/form-multipart-enctype-post-method", headers=H + [("Content-Type", "multipart/form-data; boundary=----WebKitFormBoundaryAbC123xyz"), ("Content-Length", str(len(mb)))], body=mb, route="form-multipart"))
     reqs.append(Req("POST", "/file-upload/initiate?name=a.bin&lastModified=1700000000&size=123", headers=H, route="file-upload"))
+    mb2 = multipart_body([("empty", ""), ("one", "x"), ("name", "dave")])
+    reqs.append(Req("POST", "/form-multipart-enctype-post-method", headers=H + [("Content-Type", "multipart/form-data; boundary=----WebKitFormBoundaryAbC123xyz"), ("Content-Length", str(len(mb2)))], body=mb2, route="form-multipart-empty-value"))
+    reqs.append(Req("POST", "/form-url-encoded-enctype-post-method", headers=H + [("Content-Type", "application/x-www-form-urlencoded"), ("Content-Length", "9")], body=b"a=&b=&c=1", route="form-urlencoded-empty-value"))
+    reqs.append(Req("GET", "/form-get-method?a=&b", headers=H, route="form-get-empty-value"))
     if extra_origin:
         reqs.append(Req("GET", f, headers=H + [("Origin", "https://o.example")], route="static-origin"))
     return reqs
@@ -172,6 +176,18 @@ def numeric_extremes(req):
             val = fmt % ((tx,) * fmt.count("%s"))
             r.headers = [(k, v) for k, v in r.headers if (k if isinstance(k, str) else "").lower() != name.lower()] + [(name, val)]
             out.append(("numeric-extreme:" + name, "numeric", r.bytes()))
+    return out
+
+
+def line_ending_variants(req):
+    """deterministic: the same request with LF-only / CR-only / mixed line breaks, in the head only and everywhere"""
+    raw = req.bytes()
+    head, sep, body = raw.partition(b"\r\n\r\n")
+    out = []
+    for name, f in (("lf", lambda b: b.replace(b"\r\n", b"\n")), ("cr", lambda b: b.replace(b"\r\n", b"\r")), ("lfcr", lambda b: b.replace(b"\r\n", b"\n\r")), ("crcrlf", lambda b: b.replace(b"\r\n", b"\r\r\n"))):
+        out.append(("line-endings:%s:everywhere" % name, "line-endings", f(raw)))
+        out.append(("line-endings:%s:head-only" % name, "line-endings", f(head + sep) + body))
+        out.append(("line-endings:%s:body-only" % name, "line-endings", head + sep + f(body)))
     return out
 
 
